@@ -414,6 +414,8 @@ func main() {
 	e4()
 	e5()
 	e6()
+	e7()
+	res.Info["E7"] = "a backend that answers 301/302/303/307/308 with a Location naming a listener that is no endpoint, a path outside the base path on its own host, or a relative reference; GET and POST, 2 engines, preserve_path on/off: the other listener sees nothing, the backend one request, the client the backend's status and Location"
 	e2()
 	res.Info["grid"] = map[string]any{"segment_alphabet": alphabet, "E1_max_segments": 4, "E2_max_segments": map[string]int{"quick": 3, "thorough": 4}[report.Tier], "bases": []string{"", "/", "/base", "/base/v1/"},
 		"queries": []string{"", "q=../..", "a=%2e%2e"}, "E4": "4 scheme spellings x 8 host forms x 9 port spellings (absent, :80, :443, ordinary, leading zero) x 4 base paths x preserve_path, through LoadFromConfig to the proxied target, the health-check URL and the model-listing URL", "E6": "failover: preferred endpoint refuses / resets, second endpoint on another port with another base path, preserve_path on and off, both engines: second attempt at the second endpoint's own URL, first endpoint not asked again", "E5": "every prefix spelling declared by the shipped profiles x endpoint of the owning type x 7 plain remainders (incl. ones that repeat the prefix) x 2 engines x {no base, base with preserve_path}", "E2": "raw request-target bytes behind /olla/proxy and /olla/openai, origin-form and absolute-form naming a decoy listener, both engines"}
